@@ -4,15 +4,15 @@ STATIC_NOTE = "Trusted: the analyser's model of the Warp DSL subset used by the 
 
 CLAIMED = {
   "C09": {
-    "text": "Static decision that no kernel reachable from the public simulation entry points reads or writes a cell of another world: every first index of every per-world array has world provenance; world-tag arrays are only assigned world ids (inductive, package-wide); cross-world counters are written atomically.",
+    "text": "Static decision that no kernel reachable from the public simulation entry points reads or writes a cell of another world: every first index of every per-world array has world provenance; world-tag arrays are only assigned world ids (inductive, package-wide); cross-world counters are written atomically. Also: the condition array of wp.capture_if/capture_while is a batch-wide scalar, never per-world; with a reset mask given, reset_data writes per-world Data only through kernels that take the mask.",
     "note": STATIC_NOTE,
-    "technique": "dataflow: world-provenance of index terms over a symbolic kernel IR + launch bindings (R-WORLD)",
+    "technique": "dataflow: world-provenance of index terms over a symbolic kernel IR + launch bindings (R-WORLD) + device-condition shape check + symbolic-mask host trace (R-WORLD.6, R-RESET.5)",
     "design_ref": "DESIGN.md section 4 C09, section 3 R-WORLD",
   },
   "C10": {
-    "text": "Static decision of the mechanism the property names: every access to a batchable Model field uses the thread's world id modulo that field's own batch size (through funcs, row views and closure constants), package-wide over all 312 launch sites.",
+    "text": "Static decision of the mechanism the property names: every access to a batchable Model field uses the thread's world id modulo that field's own batch size (through funcs, row views and closure constants), package-wide over all 312 launch sites. Also: a Data field that make_data seeds from the unbatched MjModel and that a step kernel recomputes from batched fields is recomputed for every element unless the model-determined skip requires those fields to be unbatched.",
     "note": STATIC_NOTE,
-    "technique": "custom lint over resolved kernel IR: batched-index normal form (R-BATCH)",
+    "technique": "custom lint over resolved kernel IR: batched-index normal form (R-BATCH) + host-seeded-vs-batched agreement (R-BATCH.4)",
     "design_ref": "DESIGN.md section 4 C10, section 3 R-BATCH",
   },
 }
@@ -36,9 +36,9 @@ _FAMILY_A = {
 }
 for _p, _w in _FAMILY_A.items():
   CLAIMED[_p] = {
-    "text": f"Structural necessary conditions only, for {_w}: every launch reachable from the stage binds each schema-named kernel parameter to the same-named Model/Data field (argument-order conformance over all bindings), read-only Data parameters are not written, and no enum member the stage dispatches on lost its handler relative to the confirmed baseline. Numerical agreement with MuJoCo is NOT decided (no static argument bounds float results).",
+    "text": f"Structural necessary conditions only, for {_w}: every launch reachable from the stage binds each schema-named kernel parameter to the same-named Model/Data field (argument-order conformance over all bindings), read-only Data parameters are not written, index spaces are not mixed, batched fields are indexed by the world modulo their own size, no enum member the stage dispatches on lost its handler relative to the confirmed baseline, plus the property-specific structural clauses named under `technique`. Numerical agreement with MuJoCo is NOT decided (no static argument bounds float results).",
     "note": STATIC_NOTE,
-    "technique": "launch-binding conformance over resolved call sites + enum-handler exhaustiveness against a confirmed baseline (R-BIND, R-DISPATCH)",
+    "technique": "launch-binding conformance over resolved call sites + index-space typing + batched-index normal form + enum-handler exhaustiveness against a confirmed baseline + reference-offset agreement, plus per-property clauses (C03 clamp-last and gain/bias parameter families, C04 routing tables, C05 row-class launch order, C07 cutoff-last, object-type frame families and slot-record permutation, C08 RK4 save/restore and advance order) (R-BIND, R-SORT, R-BATCH, R-DISPATCH, R-REF, R-CLAMP, R-FAMILY, R-SEQ, R-RECORD, R-PAIR)",
     "design_ref": "DESIGN.md section 4 Family A",
   }
 
@@ -55,16 +55,16 @@ CLAIMED["C15"] = {
   "design_ref": "DESIGN.md section 4 C15",
 }
 CLAIMED["C36"] = {
-  "text": "Static decision that no simulation result can flow through process-global python state: run-time mutations of module-level bindings are confined to the kernel cache and the profiling stack; the kernel-cache key is complete (unique factory names, no captured module-level mutable, size-hashed parameters used only through .size, no keyword calls, nested kernels module=unique).",
+  "text": "Static decision that no simulation result can flow through process-global python state: run-time mutations of module-level bindings are confined to the kernel cache and the profiling stack; the kernel-cache key is complete (unique factory names, no captured module-level mutable, size-hashed parameters used only through .size, no keyword calls, nested kernels module=unique). Also: the memoising wrapper builds its key from every positional argument plus the factory identity, accepts no unhashed keyword arguments and returns the cached entry.",
   "note": STATIC_NOTE,
   "technique": "who-may-mutate analysis of module-level bindings + closure capture analysis of @cache_kernel factories (R-GLOBAL)",
   "design_ref": "DESIGN.md section 4 C36",
 }
 
 CLAIMED["C12"] = {
-  "text": "Static decision that step() and forward() read nothing but the integration state: the live-in set of the ordered field-level effect trace (fields read or accumulated into with no earlier possible definition in the same call) contains only Model fields, State.INTEGRATION fields, tabled sticky diagnostics / make_data constants and, with sleeping enabled, the persistent sleep state; no scratch array is read before definition.",
+  "text": "Static decision that step() and forward() read nothing but the integration state: the live-in set of the ordered field-level effect trace (fields read or accumulated into with no earlier possible definition in the same call) contains only Model fields, State.INTEGRATION fields, tabled sticky diagnostics / make_data constants and, with sleeping enabled, the persistent sleep state; no scratch array is read before definition. Also: every kernel that allocates a slot of the flat contact buffer redefines every Contact field of the slot over its full extent; for every single disable/enable flag and tested flag pair no read of a non-state field stays reachable while all earlier definitions become unreachable (three-valued, with single-atom case split); loop scratch filled by sparse scatter is cleared per iteration.",
   "note": STATIC_NOTE + " May-define counts as a kill (under-reporting only).",
-  "technique": "interprocedural def-use (live-in) analysis over host effect traces with per-kernel read/write summaries (R-LIVE)",
+  "technique": "interprocedural def-use (live-in) analysis over host effect traces with per-kernel read/write summaries (R-LIVE) + three-valued flag-conditioned liveness + slot-record completeness (R-LIVE.4-.6)",
   "design_ref": "DESIGN.md section 4 C12, section 3 R-LIVE",
 }
 CLAIMED["C37"] = {
@@ -75,9 +75,9 @@ CLAIMED["C37"] = {
 }
 
 CLAIMED["C13"] = {
-  "text": "Static decision of the coverage, extent, value-family and mask-gating clauses: reset_data writes every State.INTEGRATION field and every Data field step() reads from before the call, each write covers the declared extent of its dimension, state fields get the value family of a fresh Data, every write of the masked kernels is dominated by reset_in[world] and none touches a cell without a world dimension.",
+  "text": "Static decision of the coverage, extent, value-family and mask-gating clauses: reset_data writes every State.INTEGRATION field and every Data field step() reads from before the call, each write covers the declared extent of its dimension, state fields get the value family of a fresh Data, every write of the masked kernels is dominated by reset_in[world] and none touches a cell without a world dimension. Also: the reset mask is value-cast (never reinterpreted), and with a mask given no host-level fill/copy and no unmasked launch (besides the tabled sleep bookkeeping) writes per-world Data.",
   "note": STATIC_NOTE,
-  "technique": "write-set vs live-in set comparison on host effect traces + symbolic extent reasoning over loop/launch bounds and guards (R-RESET, R-GATE, R-WORLD.5)",
+  "technique": "write-set vs live-in set comparison on host effect traces + symbolic extent reasoning over loop/launch bounds and guards (R-RESET, R-GATE, R-WORLD.5) + symbolic-mask host trace (R-RESET.5, R-VALID.5)",
   "design_ref": "DESIGN.md section 4 C13",
 }
 
@@ -89,9 +89,9 @@ CLAIMED["C25"] = {
 }
 
 CLAIMED["C24"] = {
-  "text": "Static, path-sensitive decision of the sign/zero clauses: every return of the constraint force law carries an admissible (state, force form, path condition) triple (SATISFIED => 0; LINEARNEG/LINEARPOS => +/-frictionloss beyond +/-rf; friction QUADRATIC => -D*jaref strictly inside; limit/contact QUADRATIC => -D*jaref under jaref < 0 with D stored as x/max(., MINVAL) > 0); efc.force/state have a single writer fed by that law; qfrc_constraint pairs J[r, j] with force[r] on dof j.",
+  "text": "Static, path-sensitive decision of the sign/zero clauses: every return of the constraint force law carries an admissible (state, force form, path condition) triple (SATISFIED => 0; LINEARNEG/LINEARPOS => +/-frictionloss beyond +/-rf; friction QUADRATIC => -D*jaref strictly inside; limit/contact QUADRATIC => -D*jaref under jaref < 0 with D stored as x/max(., MINVAL) > 0); efc.force/state have a single writer fed by that law; qfrc_constraint pairs J[r, j] with force[r] on dof j. Also: the change counters of the incremental solver path are incremented under exactly the change condition of the value they track.",
   "note": STATIC_NOTE,
-  "technique": "path-condition analysis of a decision tree (values touched only through comparisons) + who-may-write + index pairing on the kernel IR",
+  "technique": "path-condition analysis of a decision tree (values touched only through comparisons) + who-may-write + index pairing on the kernel IR + residual path-condition matching of change counters (R-TRACK)",
   "design_ref": "DESIGN.md section 4 C24",
 }
 
@@ -103,35 +103,35 @@ CLAIMED["C23"] = {
 }
 
 CLAIMED["C11"] = {
-  "text": "Static decision that every launch reachable from step/forward/reset_data/get_state/set_state is free of write-write and read-write conflicts between distinct threads except through atomics and tabled idioms: plain writes land on thread-determined cells (or store thread-invariant values), arrays written in a launch are read only at owned cells (aliased parameters included), plain reads of atomically updated shared cells are rejected, atomic results flow only into integer address arrays.",
+  "text": "Static decision that every launch reachable from step/forward/reset_data/get_state/set_state is free of write-write and read-write conflicts between distinct threads except through atomics and tabled idioms: plain writes land on thread-determined cells (or store thread-invariant values), arrays written in a launch are read only at owned cells (aliased parameters included), plain reads of atomically updated shared cells are rejected, atomic results flow only into integer address arrays. Also: dimensions filled through atomically allocated slots are never read at a fixed non-zero offset from a loop/thread position; in the sleep-waking kernels decisions about foreign trees are dominated by a snapshot-array test (the cycle walkers themselves remain an unverified idiom, listed as an assumption).",
   "note": STATIC_NOTE + " Tabled idioms (branch-redundant kinematics, level-scheduled tree passes, data-partitioned flex filters) carry written arguments that are not mechanised; sleep-cycle waking is listed as unverified.",
-  "technique": "injectivity classification of index terms in thread space + alias-aware read/write conflict analysis over the kernel IR (R-RACE)",
+  "technique": "injectivity classification of index terms in thread space + alias-aware read/write conflict analysis over the kernel IR (R-RACE) + slot-ordered-list and snapshot-dominance checks (R-RACE.5/.6)",
   "design_ref": "DESIGN.md section 4 C11, section 3 R-RACE",
 }
 CLAIMED["C17"] = {
-  "text": "Static decision of necessary conditions for memory safety: every write through an atomically allocated slot is dominated by a capacity comparison covering the whole block; (start, count) block descriptors never describe rows beyond the capacity; every launch binding the conditionally allocated compact workspace is guarded by at least the flags of the allocation predicate; each documented configuration constraint is rejected by a raise before any launch.",
+  "text": "Static decision of necessary conditions for memory safety: every write through an atomically allocated slot is dominated by a capacity comparison covering the whole block; (start, count) block descriptors never describe rows beyond the capacity; every launch binding the conditionally allocated compact workspace is guarded by at least the flags of the allocation predicate; each documented configuration constraint is rejected by a raise before any launch. Also: the DOF compaction maps only hold compact indices below nvmax (path guard or loop bound).",
   "note": STATIC_NOTE + " Bounds that depend on model-data invariants and Warp tile internals are assumed.",
   "technique": "linear normal forms of capacity guards + allocation/use condition agreement (contradiction rule) on host traces + validation presence (R-CAP, R-COND, R-VALID)",
   "design_ref": "DESIGN.md section 4 C17",
 }
 
 CLAIMED["C32"] = {
-  "text": "Static decision that flag tests are wired to the contributions they should remove and only to those: under the sole assumption that a flag is set/clear, every write of its own contribution in step()/forward() is unreachable (three-valued evaluation of host- and kernel-level path conditions, flags resolved through launch bindings) or stores zero, sibling contributions stay reachable, and every flag is still consulted in the feature areas of the confirmed baseline.",
+  "text": "Static decision that flag tests are wired to the contributions they should remove and only to those: under the sole assumption that a flag is set/clear, every write of its own contribution in step()/forward() is unreachable (three-valued evaluation of host- and kernel-level path conditions, flags resolved through launch bindings) or stores zero, sibling contributions stay reachable, and every flag is still consulted in the feature areas of the confirmed baseline. Also: force kernels and their velocity-derivative siblings are gated consistently in both directions and for both implicit integrators; a flag (pair) that switches off the stage defining a field leaves no reachable reader of the stale value.",
   "note": STATIC_NOTE,
-  "technique": "three-valued path-condition evaluation over effect traces under a single-flag assumption (R-FLAGS) + reference baseline (R-DISPATCH)",
+  "technique": "three-valued path-condition evaluation over effect traces under a single-flag assumption (R-FLAGS) + reference baseline (R-DISPATCH) + sibling gating both ways (R-FLAGS.3/.4) + flag-conditioned liveness (R-LIVE.6)",
   "design_ref": "DESIGN.md section 4 C32",
 }
 CLAIMED["C38"] = {
-  "text": "Static decision of the structural clauses: the sequential DOF compaction guards its map writes by count < nvmax, sets the NVMAX bit under count > nvmax on the same counter and clamps ncdof; scatter kernels write x_c[dof_cdof[i]] for active and 0.0 for frozen DOFs; gather kernels read x[cdof_dof[ci]] into compact slot ci.",
+  "text": "Static decision of the structural clauses: the sequential DOF compaction guards its map writes by count < nvmax, sets the NVMAX bit under count > nvmax on the same counter and clamps ncdof; scatter kernels write x_c[dof_cdof[i]] for active and 0.0 for frozen DOFs; gather kernels read x[cdof_dof[ci]] into compact slot ci. Also: the running count is a demand counter (no increment or loop exit conditioned on the capacity).",
   "note": STATIC_NOTE,
   "technique": "guard / value-form matching on the kernel IR (R-CAP, R-GATE)",
   "design_ref": "DESIGN.md section 4 C38",
 }
 
 CLAIMED["C33"] = {
-  "text": "Static decision of the state-restoration and batched-indexing clauses: set_const_0 / set_const_spring / set_const restore every integration-state field they overwrite on every path as the last write; with restore=True every Data field computed at the temporary state is recomputed after the restore; every batched field the set_const kernels read or write is indexed by the thread's batch index modulo that field's own size; launch bindings conform.",
+  "text": "Static decision of the state-restoration and batched-indexing clauses: set_const_0 / set_const_spring / set_const restore every integration-state field they overwrite on every path as the last write; with restore=True every Data field computed at the temporary state is recomputed after the restore; every batched field the set_const kernels read or write is indexed by the thread's batch index modulo that field's own size; launch bindings conform. Also: the composed set_const(restore=True) recomputes after the last restore everything nested helpers evaluated at a temporary state (case split on configuration atoms); reference offsets are decoded against the base cells they were encoded against; per-object scratch vectors are cleared per iteration.",
   "note": STATIC_NOTE,
-  "technique": "save/restore pairing and write-set inclusion on host effect traces (R-PAIR) + R-BATCH + R-BIND",
+  "technique": "save/restore pairing and write-set inclusion on host effect traces (R-PAIR) + R-BATCH + R-BIND + R-PAIR.3, R-REF.1, R-LIVE.4",
   "design_ref": "DESIGN.md section 4 C33",
 }
 
@@ -148,9 +148,9 @@ CLAIMED["C30"] = {
   "design_ref": "DESIGN.md section 4 C30",
 }
 CLAIMED["C31"] = {
-  "text": "Static decision of coverage clauses: put_model validates membership for every typed field whose enum the kernels dispatch on; every types.Model field is an MjModel attribute (copied by name) or assigned in put_model and every symbolic array dimension is defined; get_data_into copies each MjData field from the same-named Data field at [world_id].",
+  "text": "Static decision of coverage clauses: put_model validates membership for every typed field whose enum the kernels dispatch on; every types.Model field is an MjModel attribute (copied by name) or assigned in put_model and every symbolic array dimension is defined; get_data_into copies each MjData field from the same-named Data field at [world_id]. Also: every host access to MjData's efc_J sparse structure is control-dependent on mujoco.mj_isSparse() and every access to Data.efc's on is_sparse() (layout-predicate ownership).",
   "note": STATIC_NOTE + " Oracle: attribute names of the installed mujoco module, frozen in tables/mujoco_attrs.py.",
-  "technique": "schema-vs-populator agreement over the AST of put_model / get_data_into (R-LAYOUT, R-VALID)",
+  "technique": "schema-vs-populator agreement over the AST of put_model / get_data_into (R-LAYOUT, R-VALID) + control-dependence of layout accesses on the owning predicate (R-LAYOUT.14)",
   "design_ref": "DESIGN.md section 4 C31",
 }
 
